@@ -43,7 +43,7 @@ def from_nx(g: nx.Graph, node_key: Callable[[Dict[str, Any]], Any], edge_key: Ca
 
 
 def maps(p: G, h: G, *, mode: str, node_ok: Optional[Callable[[Any, Any], bool]] = None,
-         limit: Optional[int] = None) -> Iterator[Dict[Node, Node]]:
+         limit: Optional[int] = None, edge_ok: Optional[Callable[[Any, Any], bool]] = None) -> Iterator[Dict[Node, Node]]:
     """Enumerate injective maps pattern p -> host h.
 
     mode = "iso"   : bijection, arcs preserved both ways with equal labels
@@ -53,6 +53,8 @@ def maps(p: G, h: G, *, mode: str, node_ok: Optional[Callable[[Any, Any], bool]]
     """
     if node_ok is None:
         node_ok = lambda a, b: a == b  # noqa: E731
+    if edge_ok is None:
+        edge_ok = lambda a, b: a == b  # noqa: E731
     if mode == "iso" and (len(p.nodes) != len(h.nodes) or len(p.arcs) != len(h.arcs)):
         return
     if len(p.nodes) > len(h.nodes):
@@ -91,7 +93,7 @@ def maps(p: G, h: G, *, mode: str, node_ok: Optional[Callable[[Any, Any], bool]]
                 pe = p.arcs.get((a, b), _NO)
                 he = h.arcs.get((c, d), _NO)
                 if pe is not _NO:
-                    if he is _NO or he != pe:
+                    if he is _NO or not edge_ok(pe, he):
                         return False
                 elif strict and he is not _NO:
                     return False
@@ -99,7 +101,7 @@ def maps(p: G, h: G, *, mode: str, node_ok: Optional[Callable[[Any, Any], bool]]
         pe = p.arcs.get((u, u), _NO)
         he = h.arcs.get((x, x), _NO)
         if pe is not _NO:
-            if he is _NO or he != pe:
+            if he is _NO or not edge_ok(pe, he):
                 return False
         elif strict and he is not _NO:
             return False
@@ -131,8 +133,9 @@ def maps(p: G, h: G, *, mode: str, node_ok: Optional[Callable[[Any, Any], bool]]
 _NO = object()
 
 
-def exists(p: G, h: G, *, mode: str, node_ok: Optional[Callable[[Any, Any], bool]] = None) -> bool:
-    for _ in maps(p, h, mode=mode, node_ok=node_ok, limit=1):
+def exists(p: G, h: G, *, mode: str, node_ok: Optional[Callable[[Any, Any], bool]] = None,
+           edge_ok: Optional[Callable[[Any, Any], bool]] = None) -> bool:
+    for _ in maps(p, h, mode=mode, node_ok=node_ok, limit=1, edge_ok=edge_ok):
         return True
     return False
 
